@@ -28,3 +28,5 @@ PROP = dict(
 PROP["technique"] += " + (MultiReaderAt).ReadAt translated on every run (GoLite) and proved equal to the model's segment walk, hence to the concatenation"
 PROP["level_text"] += "; (MultiReaderAt).ReadAt itself is translated from the Go source on every run and proved to be the model's read_at_multi for every segment list, offset >= 0 and buffer, with the per-segment readers as an oracle behaving like bytes.Reader / io.SectionReader (C16_translated_ReadAt_is_the_model, C16_translated_ReadAt_is_the_concatenation)"
 PROP["trusted"] = ["translator gen/golite.go (Go leaf functions -> terms of the GoLite fragment, re-run on every check; for this function: per-object variable names for shadowed locals, loop locals given their zero value before the loop, the interface method io.ReaderAt.ReadAt as an oracle that returns the new contents of its buffer argument) and the semantics coq/GoLite.v - DESIGN.md section 10a; exercised by the vm_compute example of the property file"] + list(PROP.get("trusted", []))
+PROP["technique"] += " + NewMultiReaderAt translated likewise: the offset table it builds is the one the ReadAt theorem is stated for"
+PROP["level_text"] += "; the constructor NewMultiReaderAt is translated too and proved to build, from the pieces' sizes, exactly the reader value (offset table = prefix sums, in int64) that the ReadAt theorems are stated for (C16_translated_NewMultiReaderAt_builds_the_offset_table)"
